@@ -2,6 +2,7 @@
 // recorded cases and prints what the implementation does, for comparison with the
 // extracted Coq models, together with the direct monitors of the properties.
 mod common;
+mod dump;
 mod opt;
 mod optgen;
 
@@ -19,6 +20,9 @@ fn main() {
     let args: Vec<String> = std::env::args().collect();
     let cmd = args.get(1).map(|s| s.as_str()).unwrap_or("");
     match cmd {
+        "dump" => {
+            println!("{}", serde_json::to_string_pretty(&dump::dump()).unwrap());
+        }
         "opt-gen" => {
             let focus = arg(&args, "--focus").unwrap_or("C06");
             let seed: u64 = arg(&args, "--seed").unwrap_or("0").parse().unwrap();
